@@ -196,7 +196,7 @@ Violations(s, e, s2) ==
     (IF stateChanged THEN Mon("DirValid", DirValid(cfg, s2)) \cup Mon("DebrisConfined", DebrisConfined(cfg, s2)) ELSE {})
     \cup (IF e.e = "obs" THEN Mon("HandleContentOK", HandleContentOK(s, e)) \cup Mon("HandleModeOK", HandleModeOK(s, e))
                                \cup Mon("ReadsLastSet", ReadsLastSet(s, e)) \cup Mon("StackOK", StackOK(cfg, s, e))
-                               \cup Mon("SeqMapOK", SeqMapOK(cfg, s, e)) \cup Mon("ReplaceOwn", ReplaceOwn(s, e)) ELSE {})
+                               \cup Mon("SeqMapOK", SeqMapOK(cfg, s, e)) \cup Mon("ReplaceOwn", ReplaceOwn(s, e)) \cup Mon("ExpectVal", ExpectVal(cfg, e)) \cup Mon("WriteSideFirst", WriteSideFirst(cfg, s, e)) ELSE {})
     \cup (IF isSys \/ e.e \in {"crash", "age", "advdel"} THEN
               Mon("Immutable", ImmutableStep(s, e, s2)) \cup Mon("ROUntouched", ROUntouched(cfg, s, e, s2))
               \cup Mon("DotFilesUntouched", DotFilesUntouched(cfg, s, e, s2))
